@@ -53,6 +53,10 @@ PropC16(e) == e.ev = "snap" =>
   /\ e.kind = "msg" => (e.bytes # <<>>) = MsgComplete(e.abs)
 AgreeC16(e) == e.ev = "snap" =>
   /\ e.kind = "item" => e.string = PrintItem(e.abs, 0) /\ e.bytes = ItemBytes(e.abs)
+  \* the length bounds an ASCII variable reports are the ones it enforces (stored); (-2, -2) for a literal
+  /\ (e.kind = "item" /\ e.hasfisl) =>
+        IF "var" \in DOMAIN e.abs THEN e.fisl.lo = e.abs.lo /\ e.fisl.hi = e.abs.hi
+        ELSE e.fisl.lo = [neg |-> TRUE, dec |-> <<2>>] /\ e.fisl.hi = [neg |-> TRUE, dec |-> <<2>>]
   /\ e.kind = "msg" => e.string = PrintMsg(e.abs) /\ e.header = PrintHeader(e.abs)
 
 \* ------------------------------------------------------------------ C09
